@@ -222,6 +222,11 @@ func (i *Interpreter) Exec(ctx context.Context, bs match.Bindings, props core.St
 	env["out"] = func(x interface{}) interface{} {
 		var err error
 
+		// What the script gets back is what it passed in - and
+		// not the message that is queued, which the script (or
+		// whoever handles what it returns) could then change.
+		given := x
+
 		switch vv := x.(type) {
 		case goja.Value:
 			x = vv.Export()
@@ -239,7 +244,7 @@ func (i *Interpreter) Exec(ctx context.Context, bs match.Bindings, props core.St
 
 		exe.AddEmitted(x)
 
-		return x
+		return given
 	}
 
 	if i.Extended {
